@@ -5,11 +5,13 @@ import Drive.Btdmp
 import Drive.Apbp
 import Drive.Icu
 import Drive.Decode
+import Drive.Dma
+import Drive.Alu
 /-!
 Line-protocol driver for the executable model: one request per line on stdin, one response per
 line on stdout.  `<unit> <op> <hex args…>`.
 -/
-open Drive Teakra
+open Drive Drive.DmaDrive Teakra
 
 structure St where
   timer : Timer := {}
@@ -18,6 +20,7 @@ structure St where
   apbp : Apbp := {}
   apbpSys : ApbpSys := {}
   icu : Icu := {}
+  dma : DmaSt := {}
 
 def stepLine (st : St) (line : String) : St × String :=
   match (line.trimAscii.toString.splitOn " ").filter (· ≠ "") with
@@ -28,6 +31,8 @@ def stepLine (st : St) (line : String) : St × String :=
   | "apbpsys" :: args => let (a, out) := apbpSysStep st.apbpSys args; ({ st with apbpSys := a }, out)
   | "icu" :: args => let (a, out) := icuStep st.icu args; ({ st with icu := a }, out)
   | "dec" :: args => (st, decodeStep args)
+  | "dma" :: args => let (d, out) := dmaStep st.dma args; ({ st with dma := d }, out)
+  | "alu" :: args => (st, aluStep args)
   | [] => (st, "")
   | _ => (st, "bad-unit")
 
